@@ -380,7 +380,7 @@ def api_pools():
     # 2. Logarithm / Reciprocal under shared nodes: calls that fail half-way
     b = HeapB(); x = b.var("x"); sq = b.nary("Multiply", x, x); m = b.bin("Minus", sq, b.const(2)); u = b.bun("Logarithm", m, q(2)); v = b.nary("Multiply", m, m)
     t = b.nary("Add", sq, b.un("Reciprocal", m))
-    pool("halfway", b, [sq, u, v, t], [P(x=2), P(x=1), P(x=0), P(x=-2)], ["x", "zz"])
+    pool("halfway", b, [sq, u, v, t], [P(x=2), P(x=1), P(x=0), P(x=-2)], ["x", "zz"], switch=[{"r": u, "v": ""}, {"r": t, "v": "x"}])
     # 3. Power with a base that evaluates to one; undefined exponent
     b = HeapB(); x = b.var("x"); rc = b.un("Reciprocal", x); p1 = b.bin("Power", b.const(1), rc); t = b.nary("Add", p1, x)
     p2 = b.bin("Power", b.nary("Multiply"), b.bun("Logarithm", x, q(2)))
@@ -391,7 +391,7 @@ def api_pools():
     # 5. variable-free parts (constant folding, failing folds) next to a variable
     b = HeapB(); x = b.var("x"); c = b.nary("Add", b.const(2), b.const(3)); d = b.un("Reciprocal", b.bin("Minus", c, b.const(5))); e = b.nary("Multiply", c, x)
     f = b.nary("Add", e, d); g = b.bin("Divide", e, c)
-    pool("closed", b, [c, e, f, g], [P(x=1), P(x=0), P(x=-2)], ["x", "zz"])
+    pool("closed", b, [c, e, f, g, d], [P(x=1), P(x=0), P(x=-2)], ["x", "zz"])
     # 6. structurally equal but DISTINCT children, and an n-ary node whose later sibling fails after an earlier composite was cached
     b = HeapB(); x = b.var("x"); y = b.var("y"); e1 = b.bun("Exponential", x, q(2)); e2 = b.bun("Exponential", x, q(2)); a = b.nary("Add", e1, e2)
     mm = b.nary("Multiply", x, x); lg = b.bun("Logarithm", y, q(2)); zz = b.nary("Add", mm, lg); ww = b.nary("Multiply", mm, b.un("Reciprocal", y))
@@ -407,6 +407,13 @@ def api_pools():
     # 10. an odd number (3) of directly negated factors in one product
     b = HeapB(); x = b.var("x"); y = b.var("y"); w = b.var("w"); m3 = b.nary("Multiply", b.un("Negation", x), b.un("Negation", y), b.un("Negation", w), y)
     pool("negations", b, [m3], [P(x=2, y=3, w=5), P(x=-1, y=1, w=0)], ["x", "y", "w"], switch=[{"r": m3, "v": "x"}])
+    # 11. twins that differ only in Constant(-1) / Constant(-2) (equal hashes in CPython) over a SHARED sub-expression
+    b = HeapB(); x = b.var("x"); u3 = b.kun("NthPower", x, 3); f1 = b.nary("Multiply", b.const(-1), u3); f2 = b.nary("Multiply", b.const(-2), u3)
+    pool("twins", b, [f1, f2], [P(x=2), P(x=-1), P(x=-2)], ["x"], nums=(2, -1, -2), switch=[{"r": f2, "v": "x"}, {"r": f2, "v": ""}])
+    # 12. unary nodes over operands that the normal-form pass WRITES differently (x + (-y) => x - y ; x * (1/y) => x / y), used in a product
+    b = HeapB(); x = b.var("x"); y = b.var("y"); w = b.var("w"); a_ = b.nary("Add", x, b.un("Negation", y)); p3 = b.kun("NthPower", a_, 3); z = b.nary("Multiply", p3, w)
+    q_ = b.un("Negation", b.nary("Multiply", x, b.un("Reciprocal", y)))
+    pool("resugar", b, [p3, z, q_], [P(x=2, y=1, w=3), P(x=1, y=0, w=1)], ["x", "y", "w"], switch=[{"r": z, "v": "w"}])
     # 8. a user-built n-ary node with a child whose simplification ENLARGES the domain (Power(x, 2) => NthPower(x, 2)), shared into a
     #    product: if any simplification rewrote the user's own node in place, evaluation would stop raising where it must
     b = HeapB(); x = b.var("x"); y = b.var("y"); w = b.var("w"); pw = b.bin("Power", x, b.const(2)); s = b.nary("Add", pw, y); z = b.nary("Multiply", s, w)
